@@ -17,12 +17,16 @@ pub const ARRAY_START: u32 = 0;
 
 fn make_string_constant(s: &str) -> String {
     // PowerShell string escaping: backtick is the escape character
-    // Need to escape: backtick (`), double-quote ("), dollar sign ($), newline, carriage return
+    // Need to escape: backtick (`), double-quote (") and its typographic variants (which PowerShell
+    // also treats as string delimiters), dollar sign ($), newline, carriage return
     format!(
         r#""{}""#,
         s.replace('`', "``")
             .replace('"', "`\"")
             .replace('$', "`$")
+            .replace('\u{201C}', "`\u{201C}")
+            .replace('\u{201D}', "`\u{201D}")
+            .replace('\u{201E}', "`\u{201E}")
             .replace('\n', "`n")
             .replace('\r', "`r")
     )
